@@ -142,6 +142,16 @@ __CPROVER_ensures(instance->kind == DATA_KIND_CHUNK && instance->sink.chunk == s
 #define RPP_PLAUSIBLE(f) \
   IMPLIES((f)->header.type == RP_FRAME_WRITE_REQUEST, \
           (size_t)(f)->header.blocksize * RPP_F_WS(f) <= (f)->payload.size)
+/* what the receiver relies on from the frame parser: verdict range, raw view,
+ * "shorter than a header is bad header encoding", structure of a frame whose
+ * header was accepted, payload size rule of an accepted frame */
+#define RPP_PF_STRUCT(fb, rc) \
+  (((rc) == 0 || (rc) == -EBADMSG || (rc) == -EILSEQ || (rc) == -EFAULT || (rc) == -EPROTO) \
+   && ((RPFrame *)(fb)->data)->raw.memory == (void *)((fb)->data + sizeof(RPFrame)) \
+   && ((RPFrame *)(fb)->data)->raw.size == (fb)->used - sizeof(RPFrame) \
+   && IMPLIES((fb)->used - sizeof(RPFrame) < 12u, (rc) == -EBADMSG) \
+   && IMPLIES((rc) == 0 || (rc) == -EFAULT || (rc) == -EPROTO, RPP_HDR_PARSED((RPFrame *)(fb)->data)) \
+   && IMPLIES((rc) == 0, RPP_PLAUSIBLE((RPFrame *)(fb)->data)))
 #define RPP_FRAME_WF(p, mf) \
   ((mf)->frame == NULL \
    || (__CPROVER_rw_ok((mf)->frame, (p)->alloc->blocksize) \
@@ -229,23 +239,18 @@ __CPROVER_ensures(IMPLIES(pl != NULL && g_k < ps, g_tx_octet == ((const uint8_t 
 __CPROVER_ensures(__CPROVER_return_value <= 0)
 ;
 
-/* ASSUMED (wire side, C07): structure of a parsed frame.  Weaker than (implied
- * by) the reference-decoder contract of contracts/regp-wire.h. */
+/* ASSUMED in the receiver's proof (target regp_recv): the STRUCTURE of a
+ * parsed frame, RPP_PF_STRUCT.  Target lemma_parse_frame_structure proves that
+ * the reference-decoder contract of contracts/regp-wire.h (enforced on the
+ * real parse_frame in C07, frames up to 16 + CRC_NMAX octets) implies it; the
+ * checksum trace that contract needs makes it unusable directly on the
+ * receiver's symbolic-size block (measured: out of memory). */
 static int parse_frame(ByteBuffer *framebuf)
 __CPROVER_requires(__CPROVER_rw_ok(framebuf, sizeof(ByteBuffer)) && framebuf->data != NULL
     && sizeof(RPFrame) <= framebuf->used && framebuf->used <= framebuf->size
     && __CPROVER_rw_ok(framebuf->data, framebuf->size) && !__CPROVER_same_object(framebuf, framebuf->data))
 __CPROVER_assigns(__CPROVER_object_upto(framebuf->data, sizeof(RPFrame)))
-__CPROVER_ensures(__CPROVER_return_value == 0 || __CPROVER_return_value == -EBADMSG
-    || __CPROVER_return_value == -EILSEQ || __CPROVER_return_value == -EFAULT
-    || __CPROVER_return_value == -EPROTO)
-__CPROVER_ensures(((RPFrame *)framebuf->data)->raw.memory == framebuf->data + sizeof(RPFrame)
-    && ((RPFrame *)framebuf->data)->raw.size == framebuf->used - sizeof(RPFrame))
-__CPROVER_ensures(IMPLIES(framebuf->used - sizeof(RPFrame) < 12u, __CPROVER_return_value == -EBADMSG))
-__CPROVER_ensures(IMPLIES(__CPROVER_return_value == 0 || __CPROVER_return_value == -EFAULT
-        || __CPROVER_return_value == -EPROTO,
-    RPP_HDR_PARSED((RPFrame *)framebuf->data)))
-__CPROVER_ensures(IMPLIES(__CPROVER_return_value == 0, RPP_PLAUSIBLE((RPFrame *)framebuf->data)))
+__CPROVER_ensures(RPP_PF_STRUCT(framebuf, __CPROVER_return_value))
 ;
 
 /* ASSUMED (wire side, C07): verdict of the reference decoder on a header */
